@@ -27,8 +27,8 @@ ASSUMPTIONS = [
     "which representative of equal keys (e.g. -0.0 / 0.0) is shown in the group column is not pinned",
 ]
 BOUND = {
-    "quick": "long periodic frames of 17 and 40 rows per kind; one group column: rows 0..3 (0..4 for alphabets <= 4 values) over 'quick' alphabets of f8,i8,u1,b1,str,U,D,us; two group columns: 8 kind pairs x {NA,lo,hi}^2 rows 0..3; 22 helper/lambda pairs",
-    "thorough": "long periodic frames of 17, 40, 130, 300 rows; one group column: rows 0..4 (0..5) over 'thorough' alphabets; two group columns: 12 kind pairs rows 0..4",
+    "quick": "long periodic frames of 17 and 40 rows per kind; one group column: rows 0..3 (0..4 for alphabets <= 4 values) over 'quick' alphabets of f8,i8,u1,b1,str,U,D,us; two group columns: 8 kind pairs x {NA,lo,hi}^2 rows 0..3; 22 helper/lambda pairs; particular values as in C03; 32 helper/lambda pairs incl. large-offset and infinite float payloads; aggregate on a frame grouped and aggregated before an element-wise edit; array forms and provenances of the one-key frames",
+    "thorough": "long periodic frames of 17, 40, 130, 300 rows; one group column: rows 0..4 (0..5) over 'thorough' alphabets; two group columns: 12 kind pairs rows 0..4; plus the additions listed for the quick tier",
 }
 TIME_CAP = {"quick": 300, "thorough": 3000}
 
